@@ -1375,7 +1375,7 @@ def run(ctx):
         "fresh real object and the real state is read back and compared; plus the full equality matrix over all "
         "states of depth <= 2; plus the purity pass: on one object all observers, then a mutator (also on a pickled "
         "copy), then all observers again, compared with a fresh object (every mutator variant on states of depth <= 1, "
-        "thorough: the simplest variant of every mutator on depth 2; nested-item mutators one level deeper). Mutators include set/replace/del on a group item "
+        "thorough: also the simplest variant of every mutator on depth 2; nested-item mutators on depth <= 2). Mutators include set/replace/del on a group item "
         "reached through get_group_by_index / get_group_list / get_group_by_tag. States reached by writing an "
         "int/float/enum value or the separator string are observed but not expanded. On the deepest level the equality observers use one derived second operand per kind "
         "instead of one per tag. non-trivial = state holding a repeating group with at least two items"
@@ -1387,7 +1387,7 @@ def run(ctx):
         "pair_matrix_depth": 2,
     }
     (lv1, lv2), shallow = explore(ctx, M, [("FIXMessage", depth), ("FIXContainer", depth - 1)], 2,
-                                  1 if ctx.quick else 2, 2 if ctx.quick else 3)
+                                  1 if ctx.quick else 2, 2)
     ctx.bounds["states_per_level_FIXMessage"] = lv1
     ctx.bounds["states_per_level_FIXContainer"] = lv2
     ctx.bounds["pair_matrix_states"] = len(shallow)
